@@ -45,7 +45,11 @@ static constexpr std::uint64_t HDR = 8;     // optimistic lock word (NDEBUG)
 static constexpr std::uint64_t HDR = 0;
 #endif
 // node sizes: header + 8 (prefix) + ... as fixed by the layout of the four classes (art.hpp static_asserts: 48/160/656/2064 without header)
+#if DBKIND == 2
+static constexpr std::uint64_t SZ4 = 48 + 8, SZ16 = 160 + 16, SZ48 = 656 + 16, SZ256 = 2064 + 8;   // lock word + alignment padding (olc_art.hpp static_asserts)
+#else
 static constexpr std::uint64_t SZ4 = 48 + HDR, SZ16 = 160 + HDR, SZ48 = 656 + HDR, SZ256 = 2064 + HDR;
+#endif
 #if DBKIND == 2
 using leaf_layout = unodb::detail::basic_leaf<std::uint64_t, unodb::detail::olc_node_header>;
 #else
@@ -120,7 +124,29 @@ static bool get1(db_t& d, std::uint64_t k, std::uint8_t& out) {
   if (!r.has_value()) return false; out = r->size() ? static_cast<std::uint8_t>(r->begin()[0]) : 0; return true;
 #endif
 }
+#ifdef FAULT_FIXED
+extern "C" std::uint64_t verif_fixed_k(void) noexcept;     // fault position fixed by the generated entry wrapper <case>__f<N> (the OLC index does not fold with a symbolic one)
+#define FAULT_INDEX(hi) ((void)in_u8(), verif_fixed_k())
+#else
+#define FAULT_INDEX(hi) in_range(0, hi)
+#endif
+// C14 on the fault paths: after an operation threw, every later operation on every key completes (a node or root lock left behind makes these spin past the loop bound)
+template <unsigned N> static void sweep_after_throw(db_t& d, const std::uint64_t (&keys)[N]) {
+#if DBKIND == 2
+  for (unsigned i = 0; i < N; i++) {
+    const std::uint64_t p = keys[i] ^ 0x80; bool clash = false;
+    for (unsigned j = 0; j < N; j++) if (keys[j] == p) clash = true;
+    if (clash) continue;
+    const std::uint8_t v = 7;
+    PROP(d.insert(p, vv(&v, 1)), "C14: after an operation threw, a later insert next to every key completes and succeeds (no lock left held)");
+    PROP(d.remove(p), "C14: after an operation threw, a later remove next to every key completes and succeeds (no lock left held)");
+  }
+#else
+  (void)d; (void)keys;
+#endif
+}
 template <unsigned N> static void build(db_t& d, const std::uint64_t (&keys)[N]) {
+  olc_thread_init();
   for (unsigned i = 0; i < N; i++) { std::uint8_t v = static_cast<std::uint8_t>(i + 1); bool r = d.insert(keys[i], vv(&v, 1)); PROP(r, "C08: prelude insert succeeds"); }
 }
 template <unsigned N> static void entries_intact(db_t& d, const std::uint64_t (&keys)[N], bool removed, std::uint64_t rk) {
@@ -146,13 +172,13 @@ template <unsigned N> static unsigned with_key(const std::uint64_t (&keys)[N], s
 template <unsigned N, bool RETRY, bool FAULTS = true> static void fault_insert(const std::uint64_t (&keys)[N], const std::uint64_t* ck, unsigned nck) {
   static db_t d;
   build(d, keys);
-  const stats s0 = snap(d);
+  stats s0 = snap(d);
   { std::uint64_t r0[MAXK]; std::uint8_t v0[MAXK]; const unsigned n0 = with_key(keys, 0, false, r0, v0); check_shape(s0, ref_shape(r0, v0, n0)); }
   const std::uint64_t live0 = verif_live_allocs();
   std::uint64_t k = in_u64(); const std::uint8_t v = in_u8();
   if (ck != nullptr) { k = ck[0]; }
   bool present = false; for (unsigned i = 0; i < N; i++) if (keys[i] == k) present = true;
-  const std::uint64_t fail = FAULTS ? in_range(0, 3) : 0;
+  const std::uint64_t fail = FAULTS ? FAULT_INDEX(3) : 0;
   verif_fail_alloc_at(fail);
   bool threw = false, threw_other = false, r = false;
   try { r = d.insert(k, vv(&v, 1)); } catch (const std::bad_alloc&) { threw = true; } catch (...) { threw_other = true; }
@@ -166,6 +192,9 @@ template <unsigned N, bool RETRY, bool FAULTS = true> static void fault_insert(c
     PROP(verif_live_allocs() == live0, "C08: nothing leaked by a failed insert");
     entries_intact(d, keys, false, 0);
     std::uint8_t b = 0; PROP(get1(d, k, b) == present, "C08: a failed insert did not add its key");
+    sweep_after_throw(d, keys);
+    PROP(same_current(s0, snap(d)) && verif_live_allocs() == live0, "C08: the sweep after a failed insert leaves node counts and allocations as before");
+    s0 = snap(d);      // the sweep's probes may have grown and shrunk a node: later counter comparisons start here
     if constexpr (!RETRY) { OBSERVE(threw); WITNESS(); return; }
     r = d.insert(k, vv(&v, 1));    // retry without the fault
   }
@@ -188,12 +217,12 @@ template <unsigned N, bool RETRY, bool FAULTS = true> static void fault_insert(c
 template <unsigned N, bool RETRY, bool FAULTS = true> static void fault_remove(const std::uint64_t (&keys)[N], const std::uint64_t* ck, unsigned nck) {
   static db_t d;
   build(d, keys);
-  const stats s0 = snap(d);
+  stats s0 = snap(d);
   const std::uint64_t live0 = verif_live_allocs();
   std::uint64_t k = in_u64();
   if (ck != nullptr) { k = ck[0]; }
   bool present = false; for (unsigned i = 0; i < N; i++) if (keys[i] == k) present = true;
-  const std::uint64_t fail = FAULTS ? in_range(0, 2) : 0;
+  const std::uint64_t fail = FAULTS ? FAULT_INDEX(2) : 0;
   verif_fail_alloc_at(fail);
   bool threw = false, threw_other = false, r = false;
   try { r = d.remove(k); } catch (const std::bad_alloc&) { threw = true; } catch (...) { threw_other = true; }
@@ -205,6 +234,8 @@ template <unsigned N, bool RETRY, bool FAULTS = true> static void fault_remove(c
     PROP(same_all(s0, snap(d)), "C08: node counts, memory accounting and counters are unchanged after a failed remove");
     PROP(verif_live_allocs() == live0, "C08: nothing leaked by a failed remove");
     entries_intact(d, keys, false, 0);
+    sweep_after_throw(d, keys);
+    s0 = snap(d);
     if constexpr (!RETRY) { OBSERVE(threw); WITNESS(); return; }
     r = d.remove(k);
   }
